@@ -415,8 +415,24 @@ GAssignAt(st, cur, sels, v) ==
        IN IF r.status # "ok" THEN r
           ELSE [st |-> [r.st EXCEPT !.heap[cur.id].m = (sel.k :> r.val) @@ @], val |-> cur, res |-> v, status |-> "ok"]
   ELSE IF cur.t = "specnull" THEN GFail(st, "wild")            \* depends on what the cell's recorded parent holds now
+  ELSE IF cur.t = "str" /\ sel.s = "idx" /\ rest = <<>> THEN [st |-> st, val |-> cur, res |-> v, status |-> "ok"]  \* silently dropped
   ELSE IF cur.t \in {"num", "str", "bool", "null"} THEN GFail(st, "error")
   ELSE GFail(st, "open")
+
+\* the selectors of p with negative indices replaced by the positions they denote in st (the
+\* pinned code resolves the target of an assignment before it evaluates the right-hand side)
+RECURSIVE GResolve(_, _, _)
+GResolve(st, cur, sels) ==
+  IF sels = <<>> THEN <<>>
+  ELSE LET sel == Head(sels) IN
+  IF cur.t = "arr" /\ sel.s = "idx" THEN
+     LET j == Norm(cur.len, sel.i) IN
+     IF j < 0 THEN sels
+     ELSE <<I(j)>> \o GResolve(st, IF j < cur.len THEN st.heap[st.heap[cur.id].s[j + 1]].v ELSE Missing, Tail(sels))
+  ELSE IF cur.t = "obj" /\ sel.s = "key" /\ sel.k \in DOMAIN st.heap[cur.id].m THEN
+     <<sel>> \o GResolve(st, st.heap[cur.id].m[sel.k], Tail(sels))
+  ELSE sels
+GResolvePath(st, p) == Path(p.base, GResolve(st, st.env[p.base], p.sels))
 
 GAssignPath(st, p, v) ==
   LET r == GAssignAt(st, st.env[p.base], p.sels, v)
